@@ -52,8 +52,8 @@ class C06(Prop):
 
     def plan(self, tier):
         if tier == "quick":
-            return {"units": 3000, "budget_s": 75, "block": 30}
-        return {"units": 120000, "budget_s": 1500, "block": 60}
+            return {"units": 12000, "budget_s": 90, "block": 30}
+        return {"units": 360000, "budget_s": 1500, "block": 60}
 
     def gen_world(self, rng):
         stack = rng.choice(("client", "client", "pooled", "hash"))
